@@ -65,3 +65,49 @@ Example marshal_prog_example :
   length (emit mp_schema true 0 mp_value) = 75%nat /\ length (emit mp_schema false 0 mp_value) = 75%nat /\
   mp_bytes_eqb (emit mp_schema true 0 mp_value) (emit mp_schema false 0 mp_value) = false.
 Proof. vm_compute. repeat split; reflexivity. Qed.
+
+(* Translator tie for the generator's arithmetic helpers (task T15; Model/GoFunGen.v, Proofs/GoFunGenProofs.v): /repo/generator/
+   helpers.go is re-translated on every run (engine gofun, part "generator") into the language of Model/GoFun.v plus one
+   declaration form (a package-level constant map from named constants to named constants), each declaration compared with
+   its canonical Coq constant. The canonical KeySize, interpreted with Go's machine arithmetic (GoFun.run_fun after the named
+   types of the signature are replaced by their underlying integer types, 5 units of loop fuel or more), IS Codec.key_size —
+   the function every canon_* program of the other translator ties uses for the printed tag sizes — for every non-negative
+   int32 field number and every non-negative int8 wire type ... *)
+From CP Require GoFunGen GoFunGenProofs.
+Theorem keysize_prog_correct : GoFunGen.keysize_prog_stmt.
+Proof. exact GoFunGenProofs.keysize_prog_correct. Qed.
+
+(* ... hence, on the legal tags, the varint size of the tag (with key_size_is_sov) *)
+Theorem keysize_prog_is_sov : forall (n wt : N) (lf dp : nat), 1 <= n -> n < 536870912 -> wt < 8 ->
+  GoFunGen.gen_run GoFunGen.canon_generator (5 + lf) (1 + dp) (GoFun.GName [x4b; x65; x79; x53; x69; x7a; x65])   (* "KeySize" *)
+    [GoFunGen.fnumv n; GoFunGen.wtypev wt]
+  = GoFun.GOk [GoFun.intv (Z.of_N (Sov (n * 8 + wt)))] [GoFunGen.fnumv n; GoFunGen.wtypev wt].
+Proof. exact GoFunGenProofs.keysize_prog_sov. Qed.
+
+(* the canonical ProtoWireType (`return wireTypes[k]` on the canonical table), interpreted, is Schema.kind_wt on the sixteen
+   kinds of Schema.v, ftype_wt on a message (BytesType), 3 (StartGroupType) on a group; the constants' numbers come from
+   GoFunGen.gen_const_table, which the engine checks against the real protoreflect / protowire constants on every run *)
+Theorem protowiretype_prog_correct : GoFunGen.protowiretype_prog_stmt.
+Proof. exact GoFunGenProofs.protowiretype_prog_correct. Qed.
+
+(* ... and Go's zero value (VarintType), without a panic, on every other int8 *)
+Theorem protowiretype_absent_prog_correct : GoFunGen.protowiretype_absent_prog_stmt.
+Proof. exact GoFunGenProofs.protowiretype_absent_prog_correct. Qed.
+
+(* non-vacuity: the tag 128 at every shift (field 16 / 2048 / 262144 / 33554432 with wire type 0: the boundary `x > 127` decides),
+   the largest legal tag, too little loop fuel, a fixed32 kind, message, group and an absent kind *)
+Example gofungen_example :
+  let run := GoFunGen.gen_run GoFunGen.canon_generator in
+  let ks := GoFun.GName [x4b; x65; x79; x53; x69; x7a; x65] in
+  let pw := GoFun.GName [x50; x72; x6f; x74; x6f; x57; x69; x72; x65; x54; x79; x70; x65] in
+  run 5%nat 1%nat ks [GoFunGen.fnumv 16; GoFunGen.wtypev 0] = GoFun.GOk [GoFun.intv 2] [GoFunGen.fnumv 16; GoFunGen.wtypev 0] /\
+   run 5%nat 1%nat ks [GoFunGen.fnumv 15; GoFunGen.wtypev 7] = GoFun.GOk [GoFun.intv 1] [GoFunGen.fnumv 15; GoFunGen.wtypev 7] /\
+   run 5%nat 1%nat ks [GoFunGen.fnumv 33554432; GoFunGen.wtypev 0] = GoFun.GOk [GoFun.intv 5] [GoFunGen.fnumv 33554432; GoFunGen.wtypev 0] /\
+   run 5%nat 1%nat ks [GoFunGen.fnumv 536870911; GoFunGen.wtypev 5] = GoFun.GOk [GoFun.intv 5] [GoFunGen.fnumv 536870911; GoFunGen.wtypev 5] /\
+   run 4%nat 1%nat ks [GoFunGen.fnumv 536870911; GoFunGen.wtypev 5] = GoFun.GFuel /\
+   run 0%nat 1%nat pw [GoFunGen.kindv 7] = GoFun.GOk [GoFunGen.wtypev 5] [GoFunGen.kindv 7] /\
+   run 0%nat 1%nat pw [GoFunGen.kindv 11] = GoFun.GOk [GoFunGen.wtypev 2] [GoFunGen.kindv 11] /\
+   run 0%nat 1%nat pw [GoFunGen.kindv 10] = GoFun.GOk [GoFunGen.wtypev 3] [GoFunGen.kindv 10] /\
+   run 0%nat 1%nat pw [GoFunGen.kindv 19] = GoFun.GOk [GoFunGen.wtypev 0] [GoFunGen.kindv 19] /\
+   GoFunGen.kind_number KFixed32 = 7%Z.
+Proof. vm_compute. repeat split; reflexivity. Qed.
